@@ -498,3 +498,51 @@ Proof.
   - eapply Permutation_in; [exact P|exact I].
   - eapply Permutation_in; [apply Permutation_sym; exact P|exact I].
 Qed.
+
+(* ------------------------------------------------------------------ files: the destination's previous content *)
+Definition overlay (out dest : al string string) (p : string) : option string :=
+  match lookup p out with Some b => Some b | None => lookup p dest end.
+Definition onto_rel (dest out : al string string) (seen : list string) (fs : al string string) : Prop :=
+  (forall p, memb p seen = mem p out) /\ (forall p, lookup p fs = overlay out dest p).
+
+Lemma merge_input_onto_sim dest es : forall out seen fs, onto_rel dest out seen fs ->
+  match merge_input_files out es, merge_input_onto seen fs es with
+  | Some out', Some (seen', fs') => onto_rel dest out' seen' fs'
+  | None, None => True
+  | _, _ => False
+  end.
+Proof.
+  induction es as [|e es IH]; intros out seen fs R; cbn; [exact R|].
+  destruct R as [R1 R2]. rewrite R1. destruct (mem (f_path e) out) eqn:M.
+  - apply IH. split; assumption.
+  - destruct (transfer e) as [b|]; [|exact I]. apply IH. split; intros p.
+    + cbn. unfold mem. rewrite lookup_insert. destruct (eqb_spec p (f_path e)); cbn; [reflexivity|apply R1].
+    + unfold overlay. rewrite !lookup_insert. destruct (eqb_spec p (f_path e)); [reflexivity|apply R2].
+Qed.
+
+Lemma merge_onto_from_sim dest ins : forall out seen fs, onto_rel dest out seen fs ->
+  match merge_files_from out ins, merge_onto_from seen fs ins with
+  | Some out', Some (seen', fs') => onto_rel dest out' seen' fs'
+  | None, None => True
+  | _, _ => False
+  end.
+Proof.
+  induction ins as [|es ins IH]; intros out seen fs R; cbn; [exact R|].
+  pose proof (merge_input_onto_sim dest es out seen fs R) as S.
+  destruct (merge_input_files out es) as [out1|], (merge_input_onto seen fs es) as [[seen1 fs1]|]; try contradiction; [|exact I].
+  apply IH. exact S.
+Qed.
+
+Lemma merge_files_onto_spec dest ins :
+  match merge_files ins, merge_files_onto dest ins with
+  | Some out, Some fs => forall p, lookup p fs = overlay out dest p
+  | None, None => True
+  | _, _ => False
+  end.
+Proof.
+  unfold merge_files, merge_files_onto.
+  assert (R : onto_rel dest [] [] dest) by (split; intros p; reflexivity).
+  pose proof (merge_onto_from_sim dest ins [] [] dest R) as S.
+  destruct (merge_files_from [] ins) as [out|], (merge_onto_from [] dest ins) as [[seen fs]|]; try contradiction; [|exact I].
+  apply S.
+Qed.
